@@ -110,6 +110,7 @@ def inherit_instance(tier, seed=0):
     flib = {
         "X1": F([], [["const", 1], ["read", ["r"]]]),
         "X2": F([], [["const", 2]]),
+        "X3": F([], [["const", 3], ["read", ["r"]]]),
         "Y1": F([], [["const", 10], ["call", ["x"], [], "pos"]]),
         "Y2": F([], [["const", 20], ["call", ["o", "x"], [], "pos"]]),
     }
@@ -135,9 +136,13 @@ def inherit_instance(tier, seed=0):
         defs({"A": {"x": C("X1")}, "B": {"y": C("Y1")}},
              {"A": {"o": R(["ce", ["A"], [], "x"], "auto")}, "B": {"o": R(["sp", ["D"], [], ""], "absolute")}},
              {"C": [["A"], ["B"]], "D": []}),
+        # diamond D(B, C), B(A), C(A): x defined in A, derived in the first branch B,
+        # overridden in the later branch C -- D.x follows C (C3: D, B, C, A)
+        defs({"A": {"x": C("X1"), "y": C("Y1")}, "C": {"x": C("X2")}}, {"A": {"r": R(["int", 1, [], ""])}},
+             {"B": [["A"]], "C": [["A"]], "D": [["B"], ["C"]]}),
     ]
     if tier == "quick":
-        inits = inits[1:4]
+        inits = inits[1:4] + inits[5:6]
     ops = []
     names = ["A", "B", "C", "D"]
     for s in names:
@@ -151,6 +156,8 @@ def inherit_instance(tier, seed=0):
         ops.append({"op": "new_cells", "s": [s], "c": "x", "rec": {"f": "X2", "cached": True, "an": 0}})
         ops.append({"op": "del_cells", "s": [s], "c": "x", "via": "attr"})
         ops.append({"op": "set_formula", "s": [s], "c": "x", "f": "X1"})
+        if s in ("A", "C"):
+            ops.append({"op": "set_formula", "s": [s], "c": "x", "f": "X3"})
         ops.append({"op": "set_ref", "s": [s], "n": "r", "v": ["int", 3, [], ""], "mode": "auto", "via": "set_ref"})
         ops.append({"op": "del_ref", "s": [s], "n": "r"})
     ops.append({"op": "new_cells", "s": ["A"], "c": "y", "rec": {"f": "Y1", "cached": True, "an": 0}})
@@ -172,7 +179,8 @@ def inherit_instance(tier, seed=0):
     if tier == "quick":
         rng.shuffle(ops)
         rng.shuffle(structural)
-        keep = [o for o in ops if o["op"] in ("add_bases",)][:8] + [o for o in ops if o["op"] != "add_bases" and o["op"] != "remove_bases"][:16] + [o for o in ops if o["op"] == "remove_bases"][:4] + structural[:4]
+        fx3 = [o for o in ops if o["op"] == "set_formula" and o["f"] == "X3"]
+        keep = [o for o in ops if o["op"] in ("add_bases",)][:8] + [o for o in ops if o["op"] != "add_bases" and o["op"] != "remove_bases" and o not in fx3][:14] + fx3 + [o for o in ops if o["op"] == "remove_bases"][:4] + structural[:4]
         ops = keep
     else:
         ops = ops + structural
